@@ -193,7 +193,15 @@ FlatCross(st, obj, lib) ==
 \* generated documents are Any? except: tool inputs (ToolTy), the output of a scattered step (an array) and
 \* the output of a loop with outputMethod all (an array of optional arrays, as cwltool declares it).
 LinkTypeMismatch(env, st) ==
-  \E i \in DOMAIN st.in :
+  \/ \* static checker (at load time): a merged list of sources can never be assigned to a scalar sink
+     \E i \in DOMAIN st.in :
+        LET b == st.in[i] IN
+        /\ (Len(b.src) >= 2 \/ (b.lm # "none" /\ Len(b.src) = 1))
+        /\ b.pv \notin {"first_non_null", "the_only_non_null"} /\ b.vf = "none"
+        /\ b.name \in RangeOf(ToolIns(st.tool)) /\ b.name \notin RangeOf(st.sc)
+        /\ st.tool \in BasicTools /\ ToolTy(st.tool, b.name) \in {"int", "int?"}
+  \/ \* run time (match_types)
+   \E i \in DOMAIN st.in :
      LET b == st.in[i] IN
      /\ Len(b.src) = 1 /\ b.lm = "none" /\ b.vf = "none" /\ b.src[1].k = "step"
      /\ b.name \in RangeOf(ToolIns(st.tool))
@@ -296,6 +304,13 @@ StepEvents(env, st) ==
                          /\ \E i \in DOMAIN st.sc : Len(Val(st.sc[i]).v) # Len(Val(st.sc[1]).v)
                       THEN {"dotproduct-unequal-lengths"} ELSE {}))
      \cup (IF st.when.k = "bad" THEN {"when-not-boolean"} ELSE {})
+     \cup (IF st.tool = "sub_scat" /\ ~(\E i \in DOMAIN raw : IsFail(raw[i]))
+              /\ LET vf == BindNamed(st, "x").vf
+                     obj == [n \in {st.in[i].name : i \in DOMAIN st.in} |-> Val(n)]
+                     NotArr(v) == ~IsArr(VF(vf, v, [obj EXCEPT !["x"] = v])) IN
+                 IF "x" \in RangeOf(st.sc) THEN IsArr(Val("x")) /\ \E k \in DOMAIN Val("x").v : NotArr(Val("x").v[k])
+                 ELSE NotArr(Val("x"))
+           THEN {"scatter-over-non-array"} ELSE {})   \* the scatter inside the subworkflow
      \cup (IF ~(\E i \in DOMAIN raw : IsFail(raw[i])) /\ LinkTypeMismatch(env, st) THEN {"link-type-mismatch"} ELSE {})
 
 Events(p, r) ==
